@@ -1,14 +1,14 @@
 SPECIFICATION Spec
 CONSTANTS
-  Addrs = {"a1", "a2", "a3"}
-  Caps = {0, 1, 2, 3}
-  LiveLife = 3
-  NonLiveLife = 2
-  MaxAge = 4
-  Steps = {1, 2, 3}
+  Addrs = {"a1", "a2"}
+  Caps = {0, 1}
+  LiveLife = 50
+  NonLiveLife = 30
+  MaxAge = 55
+  Steps = {26, 30, 32, 44, 50, 54}
   KindRule = "own"
   Bug = "none"
-  ExpiryJitter = 0
+  ExpiryJitter = 4
 VIEW view
 INVARIANTS TypeOK HitIsFresh HitIsMeasuredVerdict MissProbes Bounded EvictedNeverServed Placement LruInSync NoRejuvenation
 PROPERTIES StoredWhereMeasured
